@@ -32,5 +32,5 @@ def check(repo, res, tier):
     res.rule("R-WALK", "every recorded state of a simulated path is the previous one plus (state-change matrix x counts) (+ drift*tau): with zero column sums the total is kept exactly")
     X.check_update(repo, res)
     X.check_checkjump(repo, res, rule="R-STEP")
-    n = X.check_walks(repo, res)
+    n = X.check_walks(repo, res, tier=tier)
     res.floor("walk scenarios interpreted", n, 15)
